@@ -284,7 +284,7 @@ def evaluate__map_find(self: XPathFunction, context: ta.ContextType = None) -> X
                 collect_matching_items(y)
         elif isinstance(obj, XPathMap):
             for k, v in obj.items(context):
-                if k == key:
+                if not not_equal(k, key):  # also for NaN and for keys of not comparable types
                     items.append(v)
                 collect_matching_items(v)
 
